@@ -931,6 +931,44 @@ def run_corpus(ctx, res, workers):
     return not abort.now
 
 
+def nested_evaluator_cases(res):
+    """SEVERAL Evaluator objects in one process, one evaluating while another is in progress (a user function that looks a
+    cell up in ANOTHER workbook), both workbooks holding formulas at the SAME addresses: each evaluator's in-progress
+    bookkeeping is its own — the acyclic pair must give values, a workbook that is cyclic by itself must be reported, and
+    afterwards both evaluators must still work.  (In process: small cases, no resource limits needed.)"""
+    import common  # noqa: F401
+    from xlcalculator import ModelCompiler, Evaluator
+    from xlcalculator.xlfunctions import xl
+    inner_cells = {'Sheet1!A1': '=A2+41', 'Sheet1!A2': '=A3', 'Sheet1!A3': 1, 'Sheet1!B1': '=B2', 'Sheet1!B2': '=B1'}
+    inner = Evaluator(ModelCompiler().read_and_parse_dict(dict(inner_cells)))
+
+    def PEER(addr):
+        return inner.evaluate(str(addr))
+    outer_cells = {'Sheet1!A1': '=PEER("Sheet1!A1")+1', 'Sheet1!A2': '=A1*2', 'Sheet1!A3': '=PEER("Sheet1!A2")+A2',
+                   'Sheet1!B1': '=PEER("Sheet1!B1")', 'Sheet1!C1': '=A3+PEER("Sheet1!A1")'}
+    ns = dict(xl.FUNCTIONS)
+    ns['PEER'] = PEER
+    outer = Evaluator(ModelCompiler().read_and_parse_dict(dict(outer_cells)), namespace=ns)
+    expect = [('Sheet1!A1', 'value', 43), ('Sheet1!A2', 'value', 86), ('Sheet1!A3', 'value', 87), ('Sheet1!B1', 'cycle', None),
+              ('Sheet1!C1', 'value', 129), ('Sheet1!A1', 'value', 43)]
+    for addr, kind, val in expect:
+        try:
+            got = ('value', float(outer.evaluate(addr)))
+        except RuntimeError as exc:
+            got = ('cycle' if 'ycle' in str(exc) else 'error:' + str(exc)[:80], None)
+        except Exception as exc:  # noqa: BLE001
+            got = ('raised:' + type(exc).__name__, None)
+        res.evaluations += 1
+        res.count('nested-evaluators')
+        res.nontrivial.add(('nested', addr, kind))
+        if got[0] != kind or (kind == 'value' and got[1] != val):
+            res.violations.append({
+                'what': ('an acyclic pair of workbooks evaluated by nested evaluators is reported as circular / gives a wrong value'
+                         if kind == 'value' else 'a cycle inside the peer workbook is not reported as a cycle'),
+                'input': {'outer': outer_cells, 'inner (evaluated by PEER)': inner_cells, 'entry': addr},
+                'expected': [kind, val], 'got': list(got)})
+
+
 def run(ctx):
     from common import Result
     res = Result()
@@ -1015,6 +1053,7 @@ def run(ctx):
             res.notes.append('exploration stopped early: more than 200 violations')
             break
     res.exhaustive = complete
+    nested_evaluator_cases(res)
     prof = res.extra.get('chain_profile', {})
     summary = {}
     for k, rows in prof.items():
